@@ -9,6 +9,10 @@
 (* mutably borrowed by a live TimerGuard and cannot be closed) and, for     *)
 (* Stop, the duration the call returns.                                     *)
 (* Two consecutive Advance steps are never generated (they equal one).      *)
+(* With more than one ambient / thread in the configuration the history      *)
+(* also switches the thread-local override and the thread under which the    *)
+(* following operations and observations run, and advances source B's clock: *)
+(* the expected values never depend on that (the stopwatch captured A).       *)
 (***************************************************************************)
 EXTENDS Stopwatch, Json
 
@@ -22,8 +26,16 @@ Obs == IF Observable' THEN Kept' ELSE -2
 H(op, g, d, ret) == hist' = Append(hist, <<op, g, d, Obs, ret>>)
 LastOp == IF hist = <<>> THEN "" ELSE hist[Len(hist)][1]
 
+\* environment steps: <<"Amb", ambient (0 none, 1 A, 2 B), thread (0 creating thread, 1 another thread)>>:
+\* all following operations - and the close that observes them - run under that thread-local override
+AmbCode(a) == CASE a = "none" -> 0 [] a = "A" -> 1 [] a = "B" -> 2
+ThrCode(t) == IF t = "main" THEN 0 ELSE 1
+
 RNext ==
     \/ \E d \in Ds : LastOp # "Advance" /\ Advance(d) /\ H("Advance", 0, d, None)
+    \/ \E d \in Ds : LastOp # "AdvanceB" /\ AdvanceB(d) /\ H("AdvanceB", 0, d, None)
+    \/ \E a \in Ambients, t \in Threads :
+         LastOp # "Amb" /\ SetAmbient(a, t) /\ H("Amb", AmbCode(a), ThrCode(t), None)
     \/ Start /\ H("Start", NextSlot, 0, None)
     \/ StartOwned /\ H("StartOwned", NextSlot, 0, None)
     \/ Clear /\ H("Clear", 0, 0, None)
